@@ -102,5 +102,97 @@ fn main() {
         }
         let _ = round;
     }
+    // ---- stage 2: fixed resource-heavy shapes (deep lookaround / group nesting, backreferences, loops), every
+    // executor and entry point, 48 threads hammering one shared Regex and clones at the same time. Anything
+    // process-wide (a static counter, a shared scratch buffer, a lazily filled cache) shows as a deviation from
+    // the sequential result.
+    let (hv, hq, hn) = heavy_stage();
+    queries += hq;
+    nontrivial += hn;
+    for v in hv {
+        if violations.len() < 8 {
+            violations.push(v);
+        }
+    }
     println!("{}", json!({"c19threads": 1, "rounds": rounds, "nontrivial": nontrivial, "queries": queries, "violations": violations, "sample": sample}));
+}
+
+fn nest(open: &str, inner: &str, close: &str, d: usize) -> String {
+    let mut p = String::new();
+    for _ in 0..d {
+        p.push_str(open);
+    }
+    p.push_str(inner);
+    for _ in 0..d {
+        p.push_str(close);
+    }
+    p
+}
+
+fn heavy_stage() -> (Vec<serde_json::Value>, u64, u64) {
+    let mut shapes: Vec<(String, &str, String)> = vec![];
+    for d in [6usize, 12, 24, 40, 64] {
+        shapes.push((format!("{}a+", nest("(?=a", "", ")", d)), "", "a".repeat(d + 8)));
+        shapes.push((format!("a{}", nest("(?<=a", "", ")", d)), "", "a".repeat(d + 8)));
+        shapes.push((format!("{}a", nest("(?!b", "", ")", d)), "", "ab".repeat(8)));
+        shapes.push((format!("{}b", nest("(?<!b", "c", ")", d)), "", "acb".repeat(6)));
+        shapes.push((format!("{}\\1", nest("(", "a", ")", d)), "", "aa".repeat(4)));
+        shapes.push((format!("{}b", nest("(?:", "a", ")?", d)), "i", "AaAb".to_string()));
+        shapes.push((format!("{}", nest("(?=(a)", "\\1", ")", d.min(24))), "u", "a".repeat(d + 4)));
+    }
+    shapes.push(("(a|b)*?c\\1{2,3}(?<=\\1)".into(), "", "ababcbbbabc".into()));
+    shapes.push(("(?<n>[\\p{L}--[a-f]]+)\\k<n>".into(), "iv", "xyzXYZ héHÉ".into()));
+    shapes.push(("\\b\\w+\\b(?=.*\\1?)".into(), "s", "the quick\nbrown fox".into()));
+    let mut viol = vec![];
+    let mut queries = 0u64;
+    let mut nontrivial = 0u64;
+    for (pat, flags, hay) in &shapes {
+        let cps: Vec<u32> = pat.chars().map(|c| c as u32).collect();
+        let fl = Fl::parse(flags);
+        let re = match compile(&cps, fl, false) {
+            Ok(r) => r,
+            Err(_) => continue,
+        };
+        let mut qs: Vec<Query> = vec![];
+        for api in [0u8, 2, 3, 4, 5, 1] {
+            for start in [0usize, 1] {
+                qs.push(Query { hay: hay.clone(), start, api, take: usize::MAX, which: 0 });
+            }
+        }
+        let seq: Vec<Out> = qs.iter().map(|q| run_query(&re, q)).collect();
+        if seq.iter().any(|o| o.is_cut()) {
+            continue;
+        }
+        let nthreads = 48;
+        let (re_ref, qs_ref, seq_ref) = (&re, &qs, &seq);
+        let bad: Vec<String> = std::thread::scope(|sc| {
+            let hs: Vec<_> = (0..nthreads)
+                .map(|t| {
+                    sc.spawn(move || {
+                        let own = if t % 3 == 1 { Some(re_ref.clone()) } else { None };
+                        let r: &regress::Regex = own.as_ref().unwrap_or(re_ref);
+                        let mut bad = vec![];
+                        for rep in 0..12 {
+                            for k in 0..qs_ref.len() {
+                                let i = (k * 7 + t + rep) % qs_ref.len();
+                                let o = run_query(r, &qs_ref[i]);
+                                if !o.is_cut() && o != seq_ref[i] && bad.is_empty() {
+                                    bad.push(format!("thread {} of {}: query {:?} = {} but sequentially {}", t, nthreads, qs_ref[i], o.show(), seq_ref[i].show()));
+                                }
+                            }
+                        }
+                        bad
+                    })
+                })
+                .collect();
+            hs.into_iter().flat_map(|h| h.join().unwrap_or_else(|_| vec!["a thread died".to_string()])).collect()
+        });
+        queries += (nthreads * 12 * qs.len()) as u64;
+        nontrivial += 1;
+        if let Some(msg) = bad.into_iter().next() {
+            let case = Case { pat: cps.clone(), flags: flags.to_string(), hay: hay.clone(), ..Default::default() };
+            viol.push(json!({"case": case.to_json(), "msg": msg}));
+        }
+    }
+    (viol, queries, nontrivial)
 }
